@@ -5,6 +5,7 @@ package main
 
 import (
 	"fmt"
+	"os"
 	"go/types"
 	"strings"
 
@@ -326,4 +327,11 @@ func valString(v Value) string {
 		return "(" + strings.Join(parts, ", ") + ")"
 	}
 	return fmt.Sprintf("%T", v)
+}
+
+func infeasibleAbort() *pathAbort {
+	if os.Getenv("GOSYM_DEBUG") == "2" {
+		fmt.Fprintf(os.Stderr, "DEBUG infeasible at:\n%s\n", shortStack())
+	}
+	return &pathAbort{"infeasible"}
 }
